@@ -16,13 +16,7 @@
 #include "../units/wrapint/spec.h"
 #include "zmodel.h"
 #define PRE(c, what) __CPROVER_assert(c, what " precondition (contract of units/wrapint)")
-/* The predicates of units/wrapint/spec.h in a cheaper, equivalent form: with m = msk(width), 2^width (0 at width 64) is
- * m + 1, so ONE shifter per call serves w_ok of both operands and of the result (spec.h's w_ok builds two per wrapint).
- *   w_okm(x, m)  ==  w_ok(x)               given m == msk(x.f1)
- *   mk(w, m, v)  is the unique r with w_is(r, w, v)   given m == msk(w), v <= m
- * (the equivalence is checked by the harness h_model_equiv of units/wrapped_interval/contracts.c) */
-static inline bool w_okm(W x, uint64_t m){ return x.f1 >= 1 && x.f1 <= 64 && x.f0 <= m && x.f2 == m + 1; }
-static inline W mk(uint64_t w, uint64_t m, uint64_t v){ W r; r.f0 = v; r.f1 = w; r.f2 = m + 1; return r; }
+#include "wrapint_contracts_model.h"
 #define BIN(fn, what, EXTRA, VAL) \
 void fn(W *ret, W *self, W *x){ uint64_t w = WD(self), m = msk(w), a = N(self), b = N(x); \
   PRE(w_okm(*self, m) && w_okm(*x, m) && WD(x) == w && (EXTRA), what); *ret = mk(w, m, VAL); }
